@@ -133,6 +133,7 @@ func loadGroup(g GroupCfg) (*loaded, error) {
 		if err != nil {
 			return nil, err
 		}
+		src = []byte(strings.Replace(string(src), "package PKGNAME", "package "+pkgName, 1))
 		ov[filepath.Join(pkgdir, filepath.Base(hf))] = src
 		af, err := parser.ParseFile(fs, hf, src, parser.ParseComments)
 		if err != nil {
